@@ -1,0 +1,15 @@
+//go:build verif
+
+package concurrency
+
+import "sync/atomic"
+
+// VerifHook, when set, is called at the named schedule points of the runner and
+// closer managers (verification harness only; built with the "verif" tag).
+var VerifHook atomic.Pointer[func(point string)]
+
+func verifPoint(point string) {
+	if h := VerifHook.Load(); h != nil {
+		(*h)(point)
+	}
+}
